@@ -116,6 +116,10 @@ pub fn install_panic_hook() {
         } else {
             String::new()
         };
+        if std::env::var("PV_DEBUG").is_ok() || loc.contains("harness") || loc.starts_with("src/") {
+            // a panic in the harness itself is a tool error: make it visible
+            eprintln!("pv: panic at {}: {}", loc, msg);
+        }
         LAST_PANIC.with(|p| *p.borrow_mut() = format!("{} {}", loc, msg));
     }));
 }
